@@ -162,6 +162,14 @@ CLAIMED = {
          "CFF, per-master kerning exceptions, anchors, metrics) built with varLib.build and compared through HarfBuzz at every master's "
          "user-space location (testing).",
          "Rocq proof of non-accumulating delta rounding over a model tied by differential correspondence + HarfBuzz master-reproduction sweeps"),
+ "C11": ("Gallina models of value-record printing and parsing (ast.ValueRecord.asFea / parse_valuerecord_, horizontal and vertical) and of "
+         "the compilation of a chaining contextual rule into stored Backtrack/Input/LookAhead arrays with the OpenType matching rule, tied to "
+         "feaLib/otlLib by differential runs (formats 1, 2 and 3 through ChainContextualBuilder). Theorems: a printed value record parses "
+         "back, in the same context, to a record with the same meaning and printing is a fixed point; a compiled chaining rule matches at "
+         "exactly the positions where the rule as written matches, for glyph, class and coverage elements. The rest of the language is "
+         "checked on the implementation: every corpus .fea and generated programs printed, re-parsed, re-printed and compiled both ways, and "
+         "generated GSUB/GPOS programs shaped by HarfBuzz against a reference interpreter of the rule text (testing).",
+         "Rocq proof of value-record round trip and chaining-rule compilation over a model tied by differential correspondence + asFea/HarfBuzz sweeps"),
 }
 
 def main():
